@@ -526,8 +526,7 @@ def inherit(ctx):
     rs = ctx.r.resolvers()
     ctx.need(rs, "resolver")
     b = rs[0]
-    ext = [(bb, t) for bb, t in b.calls() if "extend_input" in callee_base(t)]
-    ext = [(bb, t) for bb, t in ext if not any("extend_input" in x for x in f.cg.reach([callee_base(t)], cross_spawn=False) - {callee_base(t)})]   # innermost (see C09.OUTPUT-OF-BUILD-ONLY)
+    ext = [(bb, t) for bb, t in b.calls() if callee_base(t) in extend_input_fns(f)[0]]   # innermost (see C09.OUTPUT-OF-BUILD-ONLY)
     ctx.need(ext, "extend_input call in the resolver")
     for bb, t in ext:
         at = b.prov.operand_atoms(t["args"][1], interproc=False)
@@ -547,7 +546,8 @@ def inherit(ctx):
                 ctx.check(not other, f"{short(b.name)}/all-producers", [site(b, nbb)], "the loop over `X.output` producers can stop before all of them were inherited")
         ctx.check(inloop, f"{short(b.name)}/loop", [site(b, bb)], "the inheritance is not applied to every `X.output` producer")
     # Resources::extend appends both files and cmds
-    exts = [x for x in f.user_bodies() if re.search(r"Resources::extend$", x.name)]
+    # the merge of two resource sets: the local fn (&mut Resources, &Resources), whatever it is called
+    exts = [x for x in f.user_bodies() if x.kind in ("Fn", "AssocFn") and x.argc == 2 and re.search(r"^&mut [\w:]*Resources$", x.locals[1]["ty"]) and re.search(r"^&[\w:]*Resources$", x.locals[2]["ty"])]
     ctx.need(exts, "Resources::extend")
     for x in exts:
         got = set()
@@ -567,15 +567,14 @@ def bound_to_declarer(ctx):
     def from_project_dir(body, op, depth=0):
         """the operand derives from a `project_dir` - here, or (the body being a constructor that takes the directory as a parameter) at every call site"""
         at = body.prov.operand_atoms(op, interproc=False) if op is not None else set()
-        if any(a[0] == "field" and "project_dir" in a[2] for a in body.prov.operand_atoms(op)) if op is not None else False:
+        # (the field of the target's metadata / of the project entry - not a captured variable that happens to be called so)
+        if any(a[0] == "field" and "project_dir" in a[2] and not a[1].startswith("{env of") for a in body.prov.operand_atoms(op)) if op is not None else False:
             return True
         outer = ctx.r.outer_fn(body)
         ps = sorted(a[1] for a in at if a[0] == "param")
-        envs = [a[2] for a in at if a[0] == "field" and a[1].startswith("{env of")]
+        envs = [re.sub(r"^_ref__", "", a[2]) for a in at if a[0] == "field" and a[1].startswith("{env of")]
         names = [outer.locals[i].get("name") for i in range(1, outer.argc + 1)]
         idx = [i for i in ps if body.name == outer.name] + [names.index(nm) + 1 for nm in envs if nm in names]
-        if any(names[i - 1] == "project_dir" for i in idx if i - 1 < len(names)):
-            return True
         if not idx or depth > 3:
             return False
         sites_ = [(f.bodies[c], cbb) for (c, cbb) in f.cg.call_sites.get(outer.name, ()) if cbb is not None and c in f.bodies and not f.is_derived(f.bodies[c]) and f.bodies[c].term(cbb)["k"] == "call"]
@@ -1351,7 +1350,7 @@ def from_input_list_intact(ctx):
     for (nbb, sbb, ne, se, blks, it_atoms) in for_loops(b):
         if not (atom_callres(it_atoms) & tfn):
             continue
-        if not any("extend_input" in callee_base(t) for x, t in b.calls() if x in blks):
+        if not any(is_extend_input(f, callee_base(t)) for x, t in b.calls() if x in blks):
             continue
         ok = True
         odd = sorted(c for c in atom_callres(it_atoms) if re.search(r"::(filter|filter_map|partition|skip|take|take_while|skip_while|step_by|retain|dedup\w*|drain|truncate|split_off)(::<.*>)?$", c))
